@@ -3,7 +3,7 @@ from TexSoup import TexSoup
 #include oracles.py
 
 LETTERS = [(65, 90), (97, 122)]
-SPECIALS = '\\{}$%[]\x00\x7f\r'
+SPECIALS = '\\{}$%[]\x00\x7f'
 CTX = [('', ''), ('\\begin{e}', '\\end{e}'), ('\\begin{itemize}\\item ', '\\end{itemize}'), ('\\z{', '}'), ('$', '$'),
        ('{', '}'), ('\\z[', ']'), ('\\begin{align}', '\\end{align}')]
 BODIES_BR = ['x', '', 'a{]}b', 'a b', '{[}', '\\w{y}']
@@ -20,19 +20,28 @@ def SEP(n, first):
 
 
 def attach(sep):
-    blank = [SX.ch_among(c, ' \t\n') for c in sep]
-    lf = [SX.ch_eq(c, '\n') for c in sep]
+    blank = [SX.ch_among(c, ' \t\n\r') for c in sep]
+    lf = [SX.ch_among(c, '\n\r') for c in sep]          # LF and CR each count as a line break
     two = [SX.And(lf[i], lf[j]) for i in range(len(sep)) for j in range(i + 1, len(sep))]
     return SX.And(*(blank + [SX.Not(SX.Or(*two))]))
 
 
+STARRED = ['section*', 'cap*', 'label*', 'in*', 'textbf*', 'def*', 'item*', 'begin*', 'infty*', 'noindent*', 'cup*']
+
+
 def c09(ci, nb, nc, seplens, bodyidx, tail, namelen):
-    name = SX.fresh(namelen)
-    for ch in name:
-        SX.assume(SX.ch_in(ch, LETTERS))
-    for w in ('e', 'z', 'w', 'in', 'def', 'cap', 'cup', 'big', 'Big', 'end'):      # names used by contexts/bodies; signature table
-        if len(w) == namelen:
-            SX.assume(SX.Not(SX.s_eq(name, w)))
+    if isinstance(namelen, str):
+        name = namelen                       # a concrete name outside the signature table (starred variants)
+    else:
+        star = namelen < 0
+        name = SX.fresh(abs(namelen))
+        for ch in name:
+            SX.assume(SX.ch_in(ch, LETTERS))
+        for w in ('e', 'z', 'w', 'in', 'def', 'cap', 'cup', 'big', 'Big', 'end'):  # names used by contexts/bodies; signature table
+            if len(w) == abs(namelen) and not star:
+                SX.assume(SX.Not(SX.s_eq(name, w)))
+        if star:
+            name = name + '*'
     groups = []
     for i in range(nb):
         groups.append('[' + BODIES_BR[(bodyidx + i) % len(BODIES_BR)] + ']')
